@@ -51,6 +51,10 @@ _NS_FORMS = [
     '__path__ = __import__("pkgutil").extend_path(__path__, __name__)\n',
     "__import__('pkg_resources').declare_namespace(__name__)\n",
     '__import__("pkg_resources").declare_namespace(__name__)\n',
+    # recognised since fix 01f8900 (F11): the spelling of the pkgutil documentation, and the plain-import forms
+    "from pkgutil import extend_path\n__path__ = extend_path(__path__, __name__)\n",
+    "import pkgutil\n__path__ = pkgutil.extend_path(__path__, __name__)\n",
+    "import pkg_resources\npkg_resources.declare_namespace(__name__)\n",
 ]
 _NS_PREFIXES = [
     "",
@@ -65,7 +69,7 @@ NS_TEXTS = []
 for _f in _NS_FORMS:
     for _p in _NS_PREFIXES:
         if _p.startswith("try:"):
-            NS_TEXTS.append(_p + _f + "except ImportError:\n    __path__ = __import__('pkgutil').extend_path(__path__, __name__)\n")
+            NS_TEXTS.append("try:\n" + "".join("    " + _l + "\n" for _l in _f.splitlines()) + "except ImportError:\n    __path__ = __import__('pkgutil').extend_path(__path__, __name__)\n")
         else:
             NS_TEXTS.append(_p + _f + ("\nVERSION = '1'\n" if len(_p) % 2 else ""))
 # the oracle runs `python -S`: pkg_resources (setuptools) is not importable there; its declare_namespace is emulated with
@@ -1032,6 +1036,11 @@ FIXED_WITNESSES = {
                          [1, [["aa", D([["sub", D([["b.py", F()]])]])]]]], "search": [0, 1], "name": "aa"}, "loaded-not-importable"),
     "C14-F10": ({"dirs": [[0, [["aa", D([["sub", D([["early.py", F()]])]])]]], [1, [["aa", D([["sub", _pkg(["late.py", F()])]])]]]],
                  "search": [0, 1], "name": "aa"}, "loaded-not-importable"),
+    # F11: `from pkgutil import extend_path` after a docstring (ns text 30), `import pkgutil` form (37), `import pkg_resources` form (44)
+    "C14-F11": ({"dirs": [[0, [["aa", D([["__init__.py", F(30)], ["a.py", F()]])]]], [1, [["aa", D([["__init__.py", F(30)], ["b.py", F()]])]]]],
+                 "search": [0, 1], "name": "aa"}, "walked-not-loaded"),
+    "C14-F11b": ({"dirs": [[0, [["aa", D([["__init__.py", F(37)], ["a.py", F()]])]]], [1, [["aa", D([["__init__.py", F(44)], ["b.py", F()]])]]]],
+                  "search": [0, 1], "name": "aa"}, "walked-not-loaded"),
 }
 
 
@@ -1220,6 +1229,23 @@ def gen_multi_layout(rng):
     return {"dirs": dirs, "search": list(range(nsearch))}, names
 
 
+def targeted_multi_layouts():
+    """Hand-picked histories: a folder that is not importable in one package and a regular sub-package (or a module) of the
+    same relative name in another one."""
+    one = lambda listing, search=(0,): {"dirs": [[0, listing]], "search": list(search)}
+    return [
+        (one([["aa", _pkg(["tests", D([["helpers.py", F()]])], ["m.py", F()])],
+              ["bb", _pkg(["tests", _pkg(["helpers.py", F()], ["deep", _pkg(["x.py", F()])])], ["n.py", F()])]]), ["aa", "bb"]),
+        (one([["aa", _pkg(["sub.py", F()], ["sub", D([["inner.py", F()]])])],                     # files below a plain module of the same name
+              ["bb", _pkg(["sub", _pkg(["inner.py", F()])])],
+              ["cc", D([["sub", D([["inner.py", F()]])]])]]), ["aa", "bb", "cc"]),                   # ... and a namespace package
+        (one([["aa", _pkg(["sub", _pkg(["deep", D([["x.py", F()]])], ["a.py", F()])])],
+              ["bb", _pkg(["sub", _pkg(["deep", _pkg(["x.py", F()])], ["a.py", F()])])]]), ["aa", "bb"]),
+        ({"dirs": [[0, [["aa", _pkg(["v1.2", D([["m.py", F()]])], ["noinit", D([["y.py", F()]])])]]],
+                   [1, [["bb", D([["noinit", D([["y.py", F()]])]])], ["cc.py", F()]]]], "search": [0, 1]}, ["aa", "bb", "cc"]),
+    ]
+
+
 def impl_history(layout, base: Path, names):
     """ONE GriffeLoader loads the names one after the other -> list of canonical trees."""
     import griffe
@@ -1247,8 +1273,9 @@ def history_stream(ctx, n_layouts, model, tag, stream="one-loader-history"):
     """Each package of a layout goes through the ordinary checks (fresh loader vs model vs CPython); then the packages are
     loaded with ONE loader in several orders, and every tree must be the fresh loader's tree."""
     import itertools
-    for k in range(n_layouts):
-        layout, names = gen_multi_layout(ctx.rng)
+    fixed = targeted_multi_layouts()
+    for k in range(len(fixed) + n_layouts):
+        layout, names = fixed[k] if k < len(fixed) else gen_multi_layout(ctx.rng)
         cases = [{**layout, "name": nm} for nm in names]
         scratch = ctx.scratch / f"{tag}{k}"
         reps = evaluate(cases, scratch, model, ctx.rng, n_random=0, tag="h") if model is not None else evaluate_no_model(cases, scratch, ctx.rng)
@@ -1261,7 +1288,7 @@ def history_stream(ctx, n_layouts, model, tag, stream="one-loader-history"):
         fresh = {nm: rep["perms"][0]["load"] for nm, rep in zip(names, reps)}
         orders = list(itertools.permutations(names))
         ctx.rng.shuffle(orders)
-        for order in orders[:ctx.budget(3, 6)]:
+        for order in orders:                       # every order in which the packages can be loaded (at most 6)
             got = impl_history(layout, reps[0]["base"], list(order))
             ctx.count("history_loads")
             for pos, (nm, tree) in enumerate(zip(order, got)):
@@ -1306,7 +1333,7 @@ RULE = ("targeted layouts (witnesses of all eleven findings, every precedence de
         "family (subsets of m.py/m.pyi/m.so/m.pyc/m/ with and without __init__, every permutation of the package listing); seeded random layouts over 1-3 search paths + .pth-added paths "
         "(regular/namespace/stub/pkgutil-style/module/compiled top-level forms, nested packages to depth 4, junk, __pycache__, dotted file names, dot-files, directories with dotted names at "
         "every level holding modules and sub-packages, .pth lines absolute / relative to the .pth file / relative to the cwd / comments / missing); seeded namespace-heavy layouts (2-3 portions "
-        "with overlapping sub-directories: about half of them have the F8/F3/F10 shapes in the raw scan); pkgutil / pkg_resources-style namespace __init__ files with realistic text (docstring, licence header, coding cookie, imports before the declaration, both quote styles, the try/except template); layouts with 2-3 top-level packages sharing folder names in different roles, each checked on its own AND loaded with ONE GriffeLoader in several orders (every tree must be the fresh loader's). Each layout is run under its own, the sorted, the reversed and random listing orders, "
+        "with overlapping sub-directories: about half of them have the F8/F3/F10 shapes in the raw scan); pkgutil / pkg_resources-style namespace __init__ files with realistic text (docstring, licence header, coding cookie, imports before the declaration, both quote styles, the import forms, the try/except template; 49 variants); layouts with 2-3 top-level packages sharing folder names in different roles, each checked on its own AND loaded with ONE GriffeLoader in several orders (every tree must be the fresh loader's). Each layout is run under its own, the sorted, the reversed and random listing orders, "
         "and loaded by up to 10 paths (top-level directories in and outside the search directories, __init__ files, nested directories and files, a missing path). "
         "non-trivial = at least 4 file-system nodes; distinct by canonical layout")
 TRUSTED = ["translator harness/translate/c14_tables.py (constants and loop shapes of finder.py / loader.py -> coq/Gen/C14_tables.v; the rest of the model is hand-written and tied by differential runs)",
@@ -1321,8 +1348,8 @@ ASSUMPTIONS = ["allow_inspection=False; files are empty (or a pkgutil namespace 
                "a file called exactly '.pth' is outside the domain (site of CPython 3.12.1 reads it, pathlib gives it no suffix; newer CPythons skip hidden .pth files): generated, counted as scope",
                "the portions of a namespace package are distinct directories; search directories are not nested in one another",
                "the oracle runs python -S without setuptools: pkg_resources.declare_namespace is emulated there by pkgutil.extend_path (a stub module next to the oracle script)",
-               "pkg-style namespace declarations are generated in the spellings finder._is_pkg_style_namespace recognises (__import__('pkgutil'/'pkg_resources')...); "
-               "the `from pkgutil import extend_path` / `pkgutil.extend_path` / `pkg_resources.declare_namespace` spellings are NOT recognised by /repo (fix 8b9a050 proposed in build/fix-C14) and not generated yet"]
+               "pkg-style namespace declarations are generated in seven spellings (__import__('pkgutil'/'pkg_resources') with either quote, from pkgutil import extend_path, "
+               "import pkgutil, import pkg_resources); other ways of extending __path__ are outside the generated domain"]
 
 FINDING_KINDS = ("paths", "order-find", "order-tree", "find", "load-raises", "loaded-not-importable", "walked-not-loaded",
                  "classification", "name-vs-path", "find-raises")
